@@ -46,6 +46,9 @@ class ModuleInfo:
         # ask for it (Model.inlined_view()), pattern rules use the plain
         # view and follow helpers themselves (Model.closure)
         self.inlined = inline_new_helpers(self.tree, short) if inline else 0
+        if inline:
+            from .normalise import unroll_constant_loops
+            self.unrolled = unroll_constant_loops(self.tree)
         self.imports = {}                # local name -> (module, attr|None)
         self.funcs = {}                  # qualname -> FuncInfo
         self.classes = {}                # name -> ClassInfo
